@@ -394,9 +394,20 @@ pub fn check_c05(case: &DispatchCase, cx: &mut Ctx) {
                     if l.idx_prev != w[0].link_idx && l.idx_prev_alt != w[0].link_idx {
                         cx.fail("C05|plan|route-not-contiguous", format!("train {}: link {} does not follow {}", t + 1, w[1].link_idx.idx(), w[0].link_idx.idx()));
                     }
-                    if !(w[1].time.value >= w[0].time.value - 1e-9) || !w[1].time.value.is_finite() {
-                        cx.fail("C05|plan|arrival-times-decrease-or-not-finite", format!("train {}: {} then {}", t + 1, w[0].time.value, w[1].time.value));
+                    if w[1].time.value < w[0].time.value - 1e-9 || w[1].time.value.is_nan() {
+                        cx.fail("C05|plan|arrival-times-decrease", format!("train {}: {} then {}", t + 1, w[0].time.value, w[1].time.value));
                     }
+                }
+                if let Some(bad) = path.iter().find(|p| !p.time.value.is_finite()) {
+                    // root-cause class: an earlier train's own route holds "arrive L" but no
+                    // "clear L" for this link (its estimated run stopped before its tail had
+                    // entered L), so L's entry is never released for followers
+                    let l = bad.link_idx.idx();
+                    let never_cleared = run.final_paths.iter().enumerate().any(|(u, dp)| {
+                        u != t && dp.iter().any(|n| n.kind == 0 && n.link == l && n.time.is_finite()) && !dp.iter().any(|n| n.kind == 1 && n.link == l)
+                    });
+                    let class = if never_cleared { "follows-train-whose-route-lacks-clear-of-that-link" } else { "other" };
+                    cx.fail(format!("C05|plan|arrival-time-not-finite:{class}"), format!("train {}: link {} at time {}", t + 1, l, bad.time.value));
                 }
                 // never faster than the train's own free-running times between consecutive
                 // segments: sum of time_to_next along the est nodes the dispatch path names
